@@ -224,6 +224,154 @@ theorem poolInv_empty (tasks : List (Task κ ρ)) (share : Nat → Nat) :
 
 end Pool
 
+/-! ### Runs that read the hosting process's global generators refine the pure model -/
+
+section HostState
+variable {κ ρ : Type} (env : GEnv κ ρ)
+
+/-- a sim whose run (if any) starts with `Sim.init`: not yet initialised, or already complete (then it cannot run) -/
+def Safe (s : Sim κ ρ) : Prop := s.initSeed = none ∨ s.results.isSome = true
+
+theorem initSeedsGlobalFirst_true : Gen.initSeedsGlobalFirst = true := by decide
+theorem doRunFalseSkipsInit_true : Gen.doRunFalseSkipsInit = true := by decide
+
+/-- One `single_run` of a `Safe` object, from ANY state of the hosting process: same error, or the same sim as the
+    pure model (the results are those of the configuration run alone with its seed), again `Safe`. -/
+theorem singleRunG_refines (obj : Sim κ ρ) (t : Task κ ρ) (g : GState) (hs : Safe obj) :
+    (∃ er, singleRunG env obj t g = .error er ∧ singleRun env.pure obj t = .error er) ∨
+    (∃ r g', singleRunG env obj t g = .ok (r, g') ∧ singleRun env.pure obj t = .ok r ∧ Safe r) := by
+  unfold singleRunG singleRun
+  simp only [initGlobal, initSeedsGlobalFirst_true, doRunFalseSkipsInit_true, if_true]
+  by_cases hd : t.doRun = true
+  · simp only [hd, if_true]
+    by_cases hr : obj.results.isSome = true
+    · left; exact ⟨.alreadyRun, by simp [hr], by simp [hr]⟩
+    · have hi : obj.initSeed = none := by
+        rcases hs with h | h
+        · exact h
+        · exact absurd h hr
+      right
+      simp only [hr, hi, Option.getD_none]
+      exact ⟨_, _, rfl, rfl, Or.inr rfl⟩
+  · have hd' : t.doRun = false := by simpa using hd
+    right
+    simp only [hd']
+    refine ⟨_, _, rfl, rfl, ?_⟩
+    rcases hs with h | h
+    · exact Or.inl h
+    · exact Or.inr h
+
+/-- pools of the two models hold the same copies, all `Safe` -/
+def PoolRel (pg : PoolG κ ρ) (p : Pool κ ρ) : Prop :=
+  pg.copies = p.copies ∧ ∀ k s, p.copies k = some s → Safe s
+
+/-- outcomes agree: the same error, or related pools -/
+def OutRel : Except Err (PoolG κ ρ) → Except Err (Pool κ ρ) → Prop
+  | .error e, .error e' => e = e'
+  | .ok a, .ok b => PoolRel a b
+  | _, _ => False
+
+theorem stepEventG_refines (tasks : List (Task κ ρ)) (share : Nat → Nat) (hsafe : ∀ t ∈ tasks, Safe t.sim)
+    (pg : PoolG κ ρ) (p : Pool κ ρ) (hrel : PoolRel pg p) (e : Nat × Nat) :
+    OutRel (stepEventG env tasks share pg e) (stepEvent env.pure tasks share p e) := by
+  unfold stepEventG stepEvent
+  cases hget : tasks[e.2]? with
+  | none => simp [OutRel]
+  | some t =>
+      have htm : t ∈ tasks := List.mem_of_getElem? hget
+      obtain ⟨hc, hall⟩ := hrel
+      have hobj : Safe ((p.copies (share e.2)).getD t.sim) := by
+        cases hk : p.copies (share e.2) with
+        | none => simpa using hsafe t htm
+        | some s => simpa using hall _ s hk
+      simp only [hc]
+      rcases singleRunG_refines env ((p.copies (share e.2)).getD t.sim) t (pg.wstate e.1) hobj with
+        ⟨er, h1, h2⟩ | ⟨r, g', h1, h2, h3⟩
+      · simp only [h1, h2, OutRel]
+      · simp only [h1, h2, OutRel]
+        refine ⟨rfl, ?_⟩
+        intro k s hk
+        by_cases hkk : k = share e.2
+        · simp only [hkk, if_true, Option.some.injEq] at hk
+          exact hk ▸ h3
+        · simp only [hkk, if_false] at hk
+          exact hall k s hk
+
+theorem runScheduleG_refines (tasks : List (Task κ ρ)) (share : Nat → Nat) (hsafe : ∀ t ∈ tasks, Safe t.sim) :
+    ∀ (sched : List (Nat × Nat)) (pg : PoolG κ ρ) (p : Pool κ ρ), PoolRel pg p →
+      OutRel (runScheduleG env tasks share sched pg) (runSchedule env.pure tasks share sched p) := by
+  intro sched
+  induction sched with
+  | nil => intro pg p h; simpa [runScheduleG, runSchedule, OutRel, pure, Except.pure] using h
+  | cons e es ih =>
+      intro pg p h
+      have hstep := stepEventG_refines env tasks share hsafe pg p h e
+      simp only [runScheduleG, runSchedule, List.foldlM_cons, bind, Except.bind] at *
+      cases h1 : stepEventG env tasks share pg e with
+      | error er =>
+          cases h2 : stepEvent env.pure tasks share p e with
+          | error er' => simp only [h1, h2, OutRel] at hstep ⊢; exact hstep
+          | ok b => simp [h1, h2, OutRel] at hstep
+      | ok a =>
+          cases h2 : stepEvent env.pure tasks share p e with
+          | error er' => simp [h1, h2, OutRel] at hstep
+          | ok b =>
+              simp only [h1, h2, OutRel] at hstep
+              exact ih a b hstep
+
+theorem collectG_eq (n : Nat) (share : Nat → Nat) (pg : PoolG κ ρ) (p : Pool κ ρ) (h : pg.copies = p.copies) :
+    collectG n share pg = collect n share p := by
+  simp only [collectG, collect, h]
+
+/-- **Refinement, parallel.** Whatever states the workers start from and whatever runs leave behind, under every
+    schedule and every copy policy the run that reads the hosting process's generators returns exactly what the pure
+    model returns (members of which none is initialised-but-not-run). -/
+theorem execParG_eq_execPar (tasks : List (Task κ ρ)) (share : Nat → Nat) (sched : List (Nat × Nat)) (w0 : Nat → GState)
+    (hsafe : ∀ t ∈ tasks, Safe t.sim) :
+    execParG env tasks share sched w0 = execPar env.pure tasks share sched := by
+  have h := runScheduleG_refines env tasks share hsafe sched ⟨fun _ => none, w0⟩ Pool.empty
+    ⟨rfl, fun k s hk => by simp [Pool.empty] at hk⟩
+  unfold execParG execPar
+  cases h1 : runScheduleG env tasks share sched ⟨fun _ => none, w0⟩ with
+  | error er =>
+      cases h2 : runSchedule env.pure tasks share sched Pool.empty with
+      | error er' => simp only [h1, h2, OutRel] at h; simp [h, bind, Except.bind]
+      | ok b => simp [h1, h2, OutRel] at h
+  | ok a =>
+      cases h2 : runSchedule env.pure tasks share sched Pool.empty with
+      | error er' => simp [h1, h2, OutRel] at h
+      | ok b =>
+          simp only [h1, h2, OutRel] at h
+          simp only [bind, Except.bind]
+          exact collectG_eq _ _ a b h.1
+
+/-- **Refinement, serial loop** (one process, the state handed from member to member). -/
+theorem execSerialG_eq_execSerial : ∀ (tasks : List (Task κ ρ)) (g : GState), (∀ t ∈ tasks, Safe t.sim) →
+    (execSerialG env tasks g).map Prod.fst = execSerial env.pure tasks := by
+  intro tasks
+  induction tasks with
+  | nil => intro g _; simp [execSerialG, execSerial, Except.map, pure, Except.pure]
+  | cons t ts ih =>
+      intro g hsafe
+      have ht : Safe t.sim := hsafe t (List.mem_cons_self ..)
+      have hts : ∀ x ∈ ts, Safe x.sim := fun x hx => hsafe x (List.mem_cons_of_mem _ hx)
+      rcases singleRunG_refines env t.sim t g ht with ⟨er, h1, h2⟩ | ⟨r, g', h1, h2, _⟩
+      · simp [execSerialG, execSerial, runAlone, h1, h2, Except.map, bind, Except.bind]
+      · have ih' := ih g' hts
+        simp only [execSerial] at ih'
+        simp only [execSerialG, execSerial, List.mapM_cons, runAlone, h1, h2, bind, Except.bind]
+        cases h3 : execSerialG env ts g' with
+        | error e =>
+            rw [h3] at ih'
+            simp only [Except.map] at ih'
+            simp [← ih', Except.map]
+        | ok pr =>
+            rw [h3] at ih'
+            simp only [Except.map] at ih'
+            simp [← ih', Except.map, pure, Except.pure]
+
+end HostState
+
 /-! ### Statistics -/
 
 theorem sum_perm {l₁ l₂ : List Rat} (h : l₁.Perm l₂) : sum l₁ = sum l₂ := by
